@@ -30,6 +30,7 @@ CURATED = ['', ' ', '  ', 'a b', "it's", '"q"', '$(HOME)', '${HOME}', '$$', '$HO
            '${out}', '$:', '$ ', 'a$', '$', 'line1\\nline2', '&', '&&', '||', '()',
            '$(', '${', ')', '}', 'a\tb', ' lead', 'trail ', "'\\''", "$'x'",
            '%PATH%', '^', 'a^b', '!', '!!', 'été 中文',
+           'a:~', 'a:~/b', '~:~', '/opt/p:~/p', 'x=~', 'x=~/y', 'a:~root', '~+', '~-', 'a:~+/b',
            '\U0001f600 smile', 'x y']
 
 CONTEXTS = ['cmd_arg', 'cmd_env', 'cmd_word', 'cmds_multi', 'step_arg', 'step_jbos',
